@@ -1,7 +1,9 @@
 #!/bin/bash
 # runs every claimed check's quick command once, sequentially; prints one line per property
 cd "$(dirname "$0")/.."
+SKIP=" ${SKIP:-} "
 for p in $(python3 -c "import json; print(' '.join(c['property_id'] for c in json.load(open('MANIFEST.json'))['checks']))"); do
+  case "$SKIP" in *" $p "*) echo "$p skipped"; continue;; esac
   s=$(date +%s); bin/check $p --tier ${1:-quick} > ${TMPDIR:-/tmp}/all-$p-${1:-quick}.log 2>&1; rc=$?; e=$(date +%s)
   echo "$p rc=$rc $((e-s))s $(grep -c KNOWN-FINDING ${TMPDIR:-/tmp}/all-$p-${1:-quick}.log) known; $(grep -E "VIOLATION|$p ${1:-quick}:" ${TMPDIR:-/tmp}/all-$p-${1:-quick}.log | tail -1 | cut -c1-150)"
 done
